@@ -7,8 +7,10 @@ import time
 VERIF = os.path.dirname(os.path.dirname(os.path.abspath(__file__)))
 REPO = os.environ.get("VERIF_REPO", "/repo")
 SPECS = os.path.join(VERIF, "specs")
-BUILD = os.path.join(VERIF, "build")
-EVIDENCE = os.path.join(VERIF, "evidence")
+# development tools (seedtool, benigntool) point a check at a scratch tree and scratch output directories; the registered
+# commands never set these variables
+BUILD = os.environ.get("VERIF_BUILD", os.path.join(VERIF, "build"))
+EVIDENCE = os.environ.get("VERIF_EVIDENCE", os.path.join(VERIF, "evidence"))
 SHIMS = os.path.join(VERIF, "shims")
 PYTHON = "/venv/bin/python"
 GUARD = "RPYLIB_VERIF"
